@@ -179,6 +179,27 @@ def run(case):
                     for t in grid:
                         if not close(third[n][t], vals[t]):
                             return "settings given to %s at begin_session changed scenario %s: s(%r) = %r, expected %r" % (who, n, t, third[n][t], vals[t])
+        # a session over ALL scenarios (also those with run specs of their own), stepped a little and ended: afterwards every
+        # scenario still gives the batch results of its own settings (C06: stepping one scenario never changes another)
+        touched = [w for (w, _r) in case.get("steps", {}).values()]
+        if len(names) >= 2 and not [n for n in touched if "rate" not in case["scen"][n]]:
+            b.begin_session(scenarios=names, scenario_managers=["sm"], equations=["s"], starttime=start, dt=dt)
+            for _ in range(2):
+                b.run_step()
+            b.end_session()
+            for name in names:
+                if len(sess) >= 2 and name == sess[0]:
+                    continue      # re-parameterised on purpose by the settings of the third session above (rate 9.0)
+                rate, pts, st, sp, d = settings_of(name)
+                grid, vals, _ = reference(st, sp, d, lambda k: (rate, pts))
+                df = b.run_scenarios(scenario_managers=["sm"], scenarios=[name], equations=["s"])
+                idx = [float(x) for x in df.index]
+                if idx != grid:
+                    return "after a session over all scenarios (dt %r), the batch run of %s covers %r, its own run specs give %r" % (dt, name, idx[:8], grid[:8])
+                col = df[df.columns[0]]
+                for t in grid:
+                    if not close(col[t], vals[t]):
+                        return "after a session over all scenarios, batch %s s(%r) = %r, expected %r" % (name, t, col[t], vals[t])
     finally:
         b.destroy()
     return None
@@ -220,8 +241,26 @@ def run_rest(case):
     """REST channels: /run with run-spec-only settings after an earlier run; run-steps / run-step partitions that reach the stop time"""
     start, stop, dt, rate, dt2, parts = case
     P0 = [[0.0, 0.0], [100.0, 0.0]]
+    def build_fb():
+        # a model whose trajectory depends on dt (the flow depends on the stock)
+        m = Model(starttime=start, stoptime=stop, dt=dt, name="m")
+        s_ = m.stock("s"); f_ = m.flow("f"); r_ = m.constant("rate")
+        r_.equation = rate; f_.equation = r_ + s_ * 0.5; s_.initial_value = 1.0; s_.equation = f_
+        return m
+    def reference(start, stop, dt, schedule):
+        grid = []; k = 0
+        while True:
+            t = float(Fraction(str(start)) + k * Fraction(str(dt)))
+            if t > stop + 1e-12: break
+            grid.append(t); k += 1
+        vals = {}; v = 1.0
+        for k, t in enumerate(grid):
+            if k > 0:
+                v = v + dt * max(0, schedule(k - 1)[0] + v * 0.5)
+            vals[t] = v
+        return grid, vals, None
     def factory():
-        m = build(start, stop, dt, rate, P0)
+        m = build_fb()
         bb = bptk(); bb.register_model(m); bb.register_scenario_manager({"sm": {"model": m}}); bb.register_scenarios(scenario_manager="sm", scenarios={"base": {}})
         return bb
     app = BptkServer(__name__, factory); c = app.test_client()
